@@ -428,8 +428,16 @@ pub fn finish(ctx: Ctx, verif_dir: &str) -> i32 {
     let dir = format!("{verif_dir}/replays/{}", ctx.id);
     let _ = std::fs::create_dir_all(&dir);
     let mut first_path = String::new();
+    let show = std::env::var("FVC_SHOW").ok();
+    let mut shown = 0;
     for (n, v) in new_violations.iter().enumerate() {
-        if n < 30 {
+        if let Some(f) = &show {
+            if v.key.contains(f.as_str()) && shown < 60 {
+                shown += 1;
+                println!("  show {}: {} :: {}", n, v.key, v.detail);
+            }
+        }
+        if n < 30 && show.is_none() {
             println!("  violation {}: {} :: {}", n, v.key, v.detail);
         }
         if n < 20 {
